@@ -142,6 +142,32 @@ Definition decompose (fuel : nat) (gs : glyphset) (g : glyph) : option (list con
   | Some cs => Some (gcontours g ++ cs)
   end.
 
+(* DecomposeComponentsFilter as BaseFilter drives it: the glyphs are visited in
+   the glyph set's iteration order and each composite is decomposed IN PLACE,
+   against the glyph set as it is at that moment (so a base visited earlier is
+   already flat when a later composite refers to it) *)
+Definition set_glyph (n : str) (g : glyph) (gs : glyphset) : glyphset :=
+  map (fun ng => if str_eqb n (fst ng) then (fst ng, g) else ng) gs.
+Definition flat_glyph (g : glyph) (cs : list contour) : glyph := mkG cs [] (gwidth g) (ganchors g).
+Definition filter_step (fuel : nat) (acc : option glyphset) (n : str) : option glyphset :=
+  match acc with
+  | None => None
+  | Some gs =>
+      match assoc n gs with
+      | None => Some gs
+      | Some g =>
+          match gcomps g with
+          | [] => Some gs
+          | _ :: _ => match decompose fuel gs g with
+                      | Some cs => Some (set_glyph n (flat_glyph g cs) gs)
+                      | None => None
+                      end
+          end
+      end
+  end.
+Definition decompose_pass (fuel : nat) (order : list str) (gs : glyphset) : option glyphset :=
+  fold_left (filter_step fuel) order (Some gs).
+
 (* ---- rounding (T2CharStringPen roundTolerance / otRound) ---- *)
 (* fontTools.misc.roundTools.roundFunc(tolerance): 0 -> identity; >= 0.5 -> otRound;
    else maybeRound: keep v unless |otRound v - v| <= tolerance *)
